@@ -189,7 +189,9 @@ def concrete(req):
             if k <= 8 * len(raw):
                 (raw.read_as_int if op == "int" else raw.read_as_bytes)(k)
         try:
-            return {"cls": "ok", "header_values": enc_concrete(list(raw.header_values))}
+            hv = list(raw.header_values)
+            # the single-field accessors evaluated AFTER the tuple (same order as the symbolic harness)
+            return {"cls": "ok", "header_values": enc_concrete(hv), "attributes": enc_concrete([getattr(raw, f) for f, _ in FIELDS] + [raw.data_length])}
         except Exception as e:   # noqa: BLE001
             return {"cls": "ok", "exc": type(e).__name__}
     from checks import c02
@@ -222,6 +224,8 @@ def judge(req, got):
         bits = "".join(f"{b:08b}" for b in buf)
         want = [int(bits[START[f]:START[f] + w], 2) for f, w in FIELDS] + [len(buf) - 7]
         after = f" after reads {i['pre']}" if i.get("pre") else ""
+        if got.get("header_values") == want and got.get("attributes") != want:
+            return "reproduced", f"after header_values has been read the single-field accessors return {got.get('attributes')} instead of {want} on {buf.hex()}{after}"
         return ("not-reproduced", "agrees") if got.get("header_values") == want else ("reproduced", f"accessors {got.get('header_values') or got.get('exc')} != {want} on {buf.hex()}{after}")
     from checks import c02
     return c02.judge(req, got)
